@@ -115,3 +115,27 @@ Theorem C15_refuted_stale_pickle :
     p_names (fst (pload false (pname r 1 7%positive) d)) = [[1%positive]; []] /\
     p_names (fst (pload true (pname r 1 7%positive) d)) = [[1%positive]; [7%positive]].
 Proof. eexists. split; [reflexivity|]. vm_compute. split; reflexivity. Qed.
+
+(* ---- quantities: the JSON / pydantic / SQL composite document holds the magnitude with its type and the unit as str(unit) ----
+   It round-trips exactly when the unit's text parses back to that unit (C13's statement for that unit), whatever the magnitude; and when it
+   does not round-trip, the text is the reason.  This is why the recorded finding quantity-json:unit-text-does-not-parse-back is keyed by
+   Unit.parse(str(unit)) is not unit. *)
+From Measured Require Import Model.Parse Model.ParseCheck Model.LR Model.Lex Model.TextParse Proofs.TextParseFacts.
+
+Theorem C15_quantity_document_roundtrip : forall nm tab pt order ignore rules infos filtered terminals end_sym T k v u of l,
+  print_terms pt u of = PTerms l ->
+  render_parses_back nm order ignore rules infos filtered terminals end_sym T l = true ->
+  eval_unit tab l None = POk u ->
+  match enc_quantity pt k v u of with
+  | Some d => dec_quantity nm tab order ignore rules infos filtered terminals end_sym T d = Some (k, v, u)
+  | None => False
+  end.
+Proof. exact quantity_document_roundtrip. Qed.
+Print Assumptions C15_quantity_document_roundtrip.
+
+Theorem C15_quantity_document_fails_only_through_unit_text : forall nm tab pt order ignore rules infos filtered terminals end_sym T k v u of d,
+  enc_quantity pt k v u of = Some d ->
+  dec_quantity nm tab order ignore rules infos filtered terminals end_sym T d <> Some (k, v, u) ->
+  unit_parse_text nm tab order ignore rules infos filtered terminals end_sym T (qd_unit d) <> TUnit (POk u).
+Proof. exact quantity_document_fails_only_through_unit_text. Qed.
+Print Assumptions C15_quantity_document_fails_only_through_unit_text.
